@@ -447,12 +447,23 @@ def check(run: lib.Run, audit: dict) -> int:
         ok_py, detail_py = translated_vs_python(run, tr)
     run.obligation("translated checker evaluates like the same statements run by CPython; the model's finiteNumber like the real _finite_number "
                    "(translator + Model/PyLib.lean + the external function vs CPython)", ok_py, detail_py)
-    run_cases(run, audit, scale=run.boost * (1 if ok_tr else 2))
+    # the engine's gate around the checker (Guard._evaluate_core_async: decision_str … d = Decision(…)) as it is written NOW is proved to
+    # be the Decision of the model's finishDecision — the obligation is C01's; its comparison with CPython runs there
+    from props import c01 as _c01
+    ok_gate, _, detail_gate, tr_gate = _c01.translated_obligation(run, audit, differential=False)
+    run_cases(run, audit, scale=run.boost * (1 if ok_tr and ok_gate else 2))
     cached_sequences(run)
     violations = []
     if run.spec_failures:
         path = run.write_replay("spec", {"what": "C07 violated", "case": run.spec_failures[0], "count": len(run.spec_failures)})
         violations.append((path, True))
+    elif not ok_gate:
+        path = run.write_replay("obligation", {"what": "per-run obligation Rbacx/Run/C01_translated.lean no longer checks: the translated source of the "
+                                               "engine's obligation gate (Guard._evaluate_core_async) is not proved equal to the Decision of the "
+                                               "model's finishDecision, the object theorems Rbacx.C07.c07_guard_* are about; the search found no "
+                                               "obligation list, checker and context on which the engine deviates from the documented behaviour",
+                                               "translation": tr_gate, "lean": detail_gate[-1500:], "first_disagreement": run.disagreements[:1]})
+        violations.append((path, False))
     elif not ok_tr:
         path = run.write_replay("obligation", {"what": "per-run obligation Rbacx/Run/C07_translated.lean no longer checks: the translated source of "
                                                "BasicObligationChecker.check is not proved equal to the model's obligationUnmet / checkObligations, the "
